@@ -32,6 +32,24 @@ Proof.
   intros H Hp. cbn [try_prods andb]. rewrite H, Hp. rewrite andb_false_r. reflexivity.
 Qed.
 
+Lemma try_prods_ident2 r ps dc prev rest n :
+  rmatch r prev rest = Some n ->
+  (eqs (lower (firstn n rest)) (s "and") ||
+   negb (match skipn n rest with c :: _ => N.eqb c 40 | [] => false end)) = true ->
+  try_prods ((s "IDENT", r) :: ps) dc false prev rest = Some (Step (s "IDENT") (firstn n rest) true).
+Proof.
+  intros H Hp. cbn [try_prods andb]. rewrite H. apply orb_true_iff in Hp as [Hp|Hp].
+  - rewrite Hp. cbn [negb andb]. reflexivity.
+  - apply negb_true_iff in Hp. rewrite Hp, andb_false_r. reflexivity.
+Qed.
+
+(* IDENT matched, is followed by '(' and is not "and": the loop moves on to the next production (l.186-190) *)
+Lemma try_prods_ident_skip r ps dc prev rest n :
+  rmatch r prev rest = Some n -> eqs (lower (firstn n rest)) (s "and") = false ->
+  (match skipn n rest with c :: _ => N.eqb c 40 | [] => false end) = true ->
+  try_prods ((s "IDENT", r) :: ps) dc false prev rest = try_prods ps dc false prev rest.
+Proof. intros H H1 H2. cbn [try_prods andb]. rewrite H, H1, H2. reflexivity. Qed.
+
 Lemma try_prods_filter keep ps dc prev rest :
   (forall n r, In (n, r) ps -> keep (n, r) = false -> rmatch r prev rest = None) ->
   try_prods ps dc false prev rest = try_prods (filter keep ps) dc false prev rest.
@@ -129,6 +147,9 @@ Lemma miss_fails name r ps dc prev t :
   Fails (R:=nat) (m r) t ->
   try_prods ((name, r) :: ps) dc false prev t = try_prods ps dc false prev t.
 Proof. intros F. apply try_prods_miss. now apply fails_rmatch. Qed.
+
+Lemma ltb_len_S' {A} (x : A) (t : list A) : Nat.ltb (length t) (S (length t)) = true.
+Proof. apply Nat.ltb_lt. lia. Qed.
 
 Lemma firstn_app_exact {A} (e rest : list A) : firstn (length e) (e ++ rest) = e.
 Proof. now rewrite firstn_app, Nat.sub_diag, firstn_all, app_nil_r. Qed.
@@ -422,16 +443,19 @@ Lemma range_id5 : range_ok 118 (Some 122%N) id_names = true. Proof. vm_compute. 
 Lemma range_id6 : range_ok 128 None id_names = true. Proof. vm_compute. reflexivity. Qed.
 
 Lemma ident_hit ps dc prev d e0 els rest :
-  wf_ident d e0 els rest = true -> hd_not (is_c 40) rest = true ->
+  wf_ident d e0 els rest = true ->
+  (hd_not (is_c 40) rest || eqs (lower (ident_text d e0 els)) (s "and")) = true ->
   try_prods ((s "IDENT", re_IDENT) :: ps) dc false prev (ident_text d e0 els ++ rest) =
   Some (Step (s "IDENT") (ident_text d e0 els) true).
 Proof.
   intros Hwf Hp. destruct shapes_ok as (-> & _).
-  rewrite (try_prods_ident _ _ _ _ _ (length (ident_text d e0 els))).
+  rewrite (try_prods_ident2 _ _ _ _ _ (length (ident_text d e0 els))).
   - now rewrite firstn_app_exact.
   - apply first_rmatch. now apply first_ident.
-  - rewrite skipn_app_exact. destruct rest as [|c rest]; [reflexivity|].
-    simpl in Hp. now apply negb_true_iff in Hp.
+  - rewrite firstn_app_exact, skipn_app_exact. apply orb_true_iff in Hp as [Hp|Hp].
+    + apply orb_true_iff. right. destruct rest as [|c rest]; [reflexivity|].
+      simpl in Hp. unfold is_c in Hp. exact Hp.
+    + now rewrite Hp.
 Qed.
 
 Lemma plain_start_cases c : nmstart_plain c = true -> negb (N.eqb c 85) && negb (N.eqb c 117) = true ->
@@ -442,6 +466,82 @@ Proof.
   unfold nmstart_plain, nmstart_rs in H1. cbn [in_ranges] in H1.
   rewrite !orb_true_iff, !andb_true_iff, !N.leb_le in H1.
   unfold in_rng. rewrite andb_true_r, !andb_true_iff, !N.leb_le. clear -H1 A B. lia.
+Qed.
+
+Lemma fails_cat_alt {R} a b c t : Fails (R:=R) (m (Cat a c)) t -> Fails (R:=R) (m (Cat b c)) t -> Fails (R:=R) (m (Cat (Alt a b) c)) t.
+Proof. intros Fa Fb p k. cbn [m]. specialize (Fa p k). specialize (Fb p k). cbn [m] in Fa, Fb. now rewrite Fa. Qed.
+
+(* ---- identifiers / functions starting with a plain u or U: URI and UNICODE-RANGE are tried first ---- *)
+Definition mterm_re : re :=
+  Rep (Alt (Cat (Chr 13) (Chr 10)) (Cls false [(32,32); (9,9); (13,13); (10,10); (12,12)]%N)) 0 (Some 1%nat).
+Definition u_macro : re :=
+  Alt (Chr 85) (Alt (Chr 117) (Alt (Cat (Chr 92) (Cat (Rep (Chr 48) 0 (Some 4%nat))
+    (Cat (Alt (Cat (Chr 53) (Chr 53)) (Cat (Chr 55) (Chr 53))) mterm_re)))
+    (Alt (Cat (Chr 92) (Chr 85)) (Cat (Chr 92) (Chr 117))))).
+Definition uri_tail : re := match re_URI with Cat _ b => b | _ => Eps end.
+Definition ur_tail : re := match re_UNICODE_RANGE with Cat _ b => b | _ => Eps end.
+Lemma u_shapes : re_URI = Cat u_macro uri_tail /\ re_UNICODE_RANGE = Cat u_macro ur_tail.
+Proof. split; reflexivity. Qed.
+
+Lemma u_macro_plain b c t : c = 85%N \/ c = 117%N -> Fails (R:=nat) (m b) t ->
+  Fails (R:=nat) (m (Cat u_macro b)) (c :: t).
+Proof.
+  intros Hc Fb. unfold u_macro. destruct Hc as [-> | ->].
+  - apply fails_cat_alt; [now apply (fails_cat_single _ (fun x => N.eqb x 85))|].
+    apply fails_cat_alt; [apply fails_cat_l; apply fc_fails; reflexivity|].
+    apply fails_cat_alt; [apply fails_cat_l; apply fc_fails; reflexivity|].
+    apply fails_cat_alt; apply fails_cat_l; apply fc_fails; reflexivity.
+  - apply fails_cat_alt; [apply fails_cat_l; apply fc_fails; reflexivity|].
+    apply fails_cat_alt; [now apply (fails_cat_single _ (fun x => N.eqb x 117))|].
+    apply fails_cat_alt; [apply fails_cat_l; apply fc_fails; reflexivity|].
+    apply fails_cat_alt; apply fails_cat_l; apply fc_fails; reflexivity.
+Qed.
+
+Lemma tails_nonnull : nullable uri_tail = false /\ nullable ur_tail = false.
+Proof. split; reflexivity. Qed.
+
+Lemma tails_fc c : (N.eqb c 82 || N.eqb c 114 || N.eqb c 92 || N.eqb c 43) = false ->
+  fc uri_tail c = false /\ fc ur_tail c = false.
+Proof.
+  intros H. rewrite !orb_false_iff in H. destruct H as [[[H1 H2] H3] H4].
+  split.
+  - unfold uri_tail, re_URI. cbn [fc nullable andb orb]. rewrite H1, H2, H3. reflexivity.
+  - unfold ur_tail, re_UNICODE_RANGE. cbn [fc nullable andb orb]. rewrite H4. reflexivity.
+Qed.
+
+Lemma u_safe_fails c t : c = 85%N \/ c = 117%N -> u_safe t = true ->
+  Fails (R:=nat) (m re_URI) (c :: t) /\ Fails (R:=nat) (m re_UNICODE_RANGE) (c :: t).
+Proof.
+  intros Hc Hs. destruct u_shapes as [-> ->]. destruct tails_nonnull as [N1 N2].
+  assert (F : Fails (R:=nat) (m uri_tail) t /\ Fails (R:=nat) (m ur_tail) t).
+  { destruct t as [|x t]; [split; now apply fails_nil|]. unfold u_safe in Hs. cbn [hd_not] in Hs.
+    apply negb_true_iff in Hs. destruct (tails_fc x Hs). split; now apply fc_fails. }
+  destruct F. split; now apply u_macro_plain.
+Qed.
+
+Definition u_names : list str := [s "URI"; s "UNICODE-RANGE"; s "IDENT"; s "FUNCTION"; s "CHAR"].
+Lemma range_U : range_ok 85 (Some 85%N) u_names = true. Proof. vm_compute. reflexivity. Qed.
+Lemma range_u : range_ok 117 (Some 117%N) u_names = true. Proof. vm_compute. reflexivity. Qed.
+Lemma sel_u : exists ps, sel u_names = (s "URI", re_URI) :: (s "UNICODE-RANGE", re_UNICODE_RANGE) ::
+                                       (s "IDENT", re_IDENT) :: (s "FUNCTION", re_FUNCTION) :: ps.
+Proof. exists (skipn 4 (sel u_names)). vm_compute. reflexivity. Qed.
+
+Lemma u_dispatch c t dc prev : c = 85%N \/ c = 117%N -> u_safe t = true ->
+  exists ps, try_prods productions dc false prev (c :: t) =
+             try_prods ((s "IDENT", re_IDENT) :: (s "FUNCTION", re_FUNCTION) :: ps) dc false prev (c :: t).
+Proof.
+  intros Hc Hs. destruct (u_safe_fails c t Hc Hs) as [F1 F2]. destruct sel_u as [ps Hsel]. exists ps.
+  destruct Hc as [-> | ->].
+  - rewrite (dispatch_range _ _ _ range_U) by reflexivity. rewrite Hsel.
+    rewrite miss_fails by exact F1. now rewrite miss_fails by exact F2.
+  - rewrite (dispatch_range _ _ _ range_u) by reflexivity. rewrite Hsel.
+    rewrite miss_fails by exact F1. now rewrite miss_fails by exact F2.
+Qed.
+
+Lemma plain_start_cases2 c : nmstart_plain c = true ->
+  (c = 85%N \/ c = 117%N) \/ negb (N.eqb c 85) && negb (N.eqb c 117) = true.
+Proof.
+  intros _. destruct (N.eqb_spec c 85); [auto|]. destruct (N.eqb_spec c 117); [auto|]. right. reflexivity.
 Qed.
 
 Lemma ident_lexeme d e0 els rest : ok_follow (LIdent d e0 els) rest = true -> wins (LIdent d e0 els) rest.
@@ -460,6 +560,13 @@ Proof.
     pose proof (ident_hit) as Hit.
     unfold ident_text at 1. cbn [dash_text app render map concat render_el].
     change (([c] ++ concat (map render_el els)) ++ rest) with (c :: concat (map render_el els) ++ rest).
+    destruct (plain_start_cases2 c Hc) as [Hu|Hnu].
+    { assert (Hs : u_safe (concat (map render_el els) ++ rest) = true).
+      { destruct Hu as [-> | ->]; exact Hfirst. }
+      destruct (u_dispatch c (concat (map render_el els) ++ rest) dc prev Hu Hs) as [ps ->].
+      now apply (Hit _ dc prev false (P c)). }
+    assert (Hfirst' : negb (N.eqb c 85) && negb (N.eqb c 117) = true) by exact Hnu.
+    clear Hfirst. rename Hfirst' into Hfirst.
     destruct (plain_start_cases c Hc Hfirst) as [R|[R|[R|[R|[R|R]]]]].
     + rewrite (dispatch_range _ _ _ range_id1 c R). destruct sel_id as [ps ->]. now apply (Hit ps dc prev false (P c)).
     + rewrite (dispatch_range _ _ _ range_id2 c R). destruct sel_id as [ps ->]. now apply (Hit ps dc prev false (P c)).
@@ -685,9 +792,6 @@ Lemma forallb_digt xs : forallb is_dig xs = true -> forallb digt xs = true.
 Proof. intros H. rewrite <- H. apply forallb_ext'. apply digt_is. Qed.
 Lemma head_digt t : hd_not is_dig t = true -> head_not digt t = true.
 Proof. intros H. unfold digt. rewrite (head_not_xorb (fun x => in_ranges x dig_rs)). exact H. Qed.
-
-Lemma fails_cat_alt {R} a b c t : Fails (R:=R) (m (Cat a c)) t -> Fails (R:=R) (m (Cat b c)) t -> Fails (R:=R) (m (Cat (Alt a b) c)) t.
-Proof. intros Fa Fb p k. cbn [m]. specialize (Fa p k). specialize (Fb p k). cbn [m] in Fa, Fb. now rewrite Fa. Qed.
 
 Lemma fails_cat_assoc {R} a b c t : Fails (R:=R) (m (Cat a (Cat b c))) t -> Fails (R:=R) (m (Cat (Cat a b) c)) t.
 Proof. intros F p k. exact (F p k). Qed.
@@ -1234,6 +1338,263 @@ Proof.
     now apply (prod_nonnullable n).
 Qed.
 
+
+(* ------------------------------------------------------------------ FUNCTION versus IDENT *)
+Lemma sel_id2 : exists ps, sel id_names = (s "IDENT", re_IDENT) :: (s "FUNCTION", re_FUNCTION) :: ps.
+Proof. exists (skipn 2 (sel id_names)). vm_compute. reflexivity. Qed.
+Lemma sel_dash2 : exists ps, sel dash_names = (s "IDENT", re_IDENT) :: (s "FUNCTION", re_FUNCTION) :: ps.
+Proof. exists (skipn 2 (sel dash_names)). vm_compute. reflexivity. Qed.
+
+Lemma first_function d e0 els rest : wf_ident d e0 els (40%N :: rest) = true ->
+  First (R:=nat) (m (Cat dash_re (Cat nmstart_re (Cat (Rep nmchar_re 0 None) (Chr 40))))) (ident_text d e0 els ++ [40%N]) rest.
+Proof.
+  unfold wf_ident. rewrite !andb_true_iff. intros [[H0 Hels] Hn].
+  unfold ident_text, render. cbn [map concat].
+  replace ((dash_text d ++ render_el e0 ++ concat (map render_el els)) ++ [40%N])
+    with (dash_text d ++ (render_el e0 ++ (concat (map render_el els) ++ [40%N])))
+    by (rewrite <- !app_assoc; reflexivity).
+  apply first_cat.
+  - apply first_dash. intros _. rewrite <- !app_assoc. cbn [app]. now apply el_head_not_dash.
+  - apply first_cat.
+    + rewrite <- !app_assoc. cbn [app].
+      apply (first_nm_el nmstart_rs nmstart_plain); [reflexivity|reflexivity|exact H0].
+    + apply first_cat.
+      * apply first_nmchars; [exact Hels|exact Hn|lia].
+      * now apply (first_single _ (fun x => N.eqb x 40)).
+Qed.
+
+(* ident ( : IDENT matches the name but is skipped (next character is the parenthesis and the raw
+   name is not "and" in any letter case), FUNCTION takes name + parenthesis *)
+Lemma function_hit ps dc prev d e0 els rest :
+  wf_ident d e0 els (40%N :: rest) = true -> eqs (lower (ident_text d e0 els)) (s "and") = false ->
+  try_prods ((s "IDENT", re_IDENT) :: (s "FUNCTION", re_FUNCTION) :: ps) dc false prev
+            ((ident_text d e0 els ++ [40%N]) ++ rest) =
+  Some (Step (s "FUNCTION") (ident_text d e0 els ++ [40%N]) true).
+Proof.
+  intros Hwf Hand. destruct shapes_ok as (Hi & Hf & _).
+  rewrite (try_prods_ident_skip _ _ _ _ _ (length (ident_text d e0 els))).
+  - apply hit_first; [|reflexivity]. rewrite Hf. now apply first_function.
+  - rewrite Hi, <- app_assoc. apply first_rmatch. now apply first_ident.
+  - rewrite <- app_assoc, firstn_app_exact. exact Hand.
+  - rewrite <- app_assoc, skipn_app_exact. reflexivity.
+Qed.
+
+Lemma function_lexeme d e0 els rest : ok_follow (LFunction d e0 els) rest = true -> wins (LFunction d e0 els) rest.
+Proof.
+  cbn [ok_follow]. rewrite !andb_true_iff, negb_true_iff. intros [[Hwf Hfirst] Hand] dc prev. cbn [text cls].
+  destruct d.
+  - unfold ident_text at 1. cbn [dash_text]. change ((([45%N] ++ render (e0 :: els)) ++ [40%N]) ++ rest)
+      with (45%N :: (render (e0 :: els) ++ [40%N]) ++ rest).
+    rewrite (dispatch_range _ _ _ range_dash) by reflexivity. destruct sel_dash2 as [ps ->].
+    change (45%N :: (render (e0 :: els) ++ [40%N]) ++ rest) with ((ident_text true e0 els ++ [40%N]) ++ rest).
+    now apply function_hit.
+  - cbn [first_plain_ok orb] in Hfirst. destruct e0 as [c| | |]; try discriminate.
+    assert (Hc : nmstart_plain c = true).
+    { unfold wf_ident in Hwf. rewrite !andb_true_iff in Hwf. tauto. }
+    pose proof (function_hit) as Hit.
+    unfold ident_text at 1. cbn [dash_text app render map concat render_el].
+    change ((([c] ++ concat (map render_el els)) ++ [40%N]) ++ rest)
+      with (c :: (concat (map render_el els) ++ [40%N]) ++ rest).
+    destruct (plain_start_cases2 c Hc) as [Hu|Hnu].
+    { assert (Hs : u_safe ((concat (map render_el els) ++ [40%N]) ++ rest) = true).
+      { rewrite <- app_assoc. destruct Hu as [-> | ->]; exact Hfirst. }
+      destruct (u_dispatch c ((concat (map render_el els) ++ [40%N]) ++ rest) dc prev Hu Hs) as [ps ->].
+      now apply (Hit _ dc prev false (P c)). }
+    assert (Hfirst' : negb (N.eqb c 85) && negb (N.eqb c 117) = true) by exact Hnu.
+    clear Hfirst. rename Hfirst' into Hfirst.
+    destruct (plain_start_cases c Hc Hfirst) as [R|[R|[R|[R|[R|R]]]]].
+    + rewrite (dispatch_range _ _ _ range_id1 c R). destruct sel_id2 as [ps ->]. now apply (Hit ps dc prev false (P c)).
+    + rewrite (dispatch_range _ _ _ range_id2 c R). destruct sel_id2 as [ps ->]. now apply (Hit ps dc prev false (P c)).
+    + rewrite (dispatch_range _ _ _ range_id3 c R). destruct sel_id2 as [ps ->]. now apply (Hit ps dc prev false (P c)).
+    + rewrite (dispatch_range _ _ _ range_id4 c R). destruct sel_id2 as [ps ->]. now apply (Hit ps dc prev false (P c)).
+    + rewrite (dispatch_range _ _ _ range_id5 c R). destruct sel_id2 as [ps ->]. now apply (Hit ps dc prev false (P c)).
+    + rewrite (dispatch_range _ _ _ range_id6 c R). destruct sel_id2 as [ps ->]. now apply (Hit ps dc prev false (P c)).
+Qed.
+
+
+(* ------------------------------------------------------------------ context-dependent delimiters *)
+Lemma fails_opt1_cat a f b x t : chartest a = Some f ->
+  Fails (R:=nat) (m b) (x :: t) -> (f x = true -> Fails (R:=nat) (m b) t) ->
+  Fails (R:=nat) (m (Cat (Rep a 0 (Some 1%nat)) b)) (x :: t).
+Proof.
+  intros Ha F1 F2 p k. cbn [m length rep_iter]. rewrite (m_single _ _ Ha).
+  destruct (f x) eqn:Ex.
+  - rewrite (ltb_len_S' x). cbn [Nat.pred option_map]. rewrite (F2 eq_refl (Some x) k). apply (F1 p k).
+  - apply (F1 p k).
+Qed.
+
+Lemma fails_opt1_nil a b : Fails (R:=nat) (m b) [] -> Fails (R:=nat) (m (Cat (Rep a 0 (Some 1%nat)) b)) [].
+Proof.
+  intros F p k. cbn [m length rep_iter].
+  destruct (m a p [] _) as [v|] eqn:E.
+  - apply m_sound in E as (p' & t' & E & L & _). destruct t'; [|simpl in L; lia]. simpl in E. discriminate.
+  - apply F.
+Qed.
+
+Lemma char_hit ps dc prev c rest : N.eqb c 34 = false -> N.eqb c 39 = false ->
+  try_prods ((s "CHAR", re_CHAR) :: ps) dc false prev (c :: rest) = Some (Step (s "CHAR") [c] true).
+Proof.
+  intros H1 H2. apply (hit_first _ _ _ _ _ [c]); [|reflexivity]. unfold re_CHAR.
+  apply (first_single _ (fun x => xorb true (in_ranges x [(34,34); (39,39)]%N))); [reflexivity|].
+  cbn [in_ranges]. revert H1 H2. ranges.
+Qed.
+
+(* num cannot match at u: u starts neither with a digit nor with '.' digit *)
+Definition nonum (u : str) : bool := hd_not is_dig u && negb (dot_digit u).
+
+Lemma nonum_fails u : nonum u = true ->
+  Fails (R:=nat) (m (Cat D0 (Cat (Chr 46) D1))) u /\ Fails (R:=nat) (m D1) u.
+Proof.
+  unfold nonum. rewrite andb_true_iff, negb_true_iff. intros [Hd Hdot].
+  assert (F2 : Fails (R:=nat) (m D1) u).
+  { apply fails_rep_pos; [|discriminate]. apply (fails_head _ digt); [reflexivity|now apply head_digt]. }
+  split; [|exact F2]. unfold D0.
+  apply (fails_cat_run _ digt _ _ _ []); [reflexivity|reflexivity|now apply head_digt|].
+  intros i Hi. simpl in Hi. assert (i = O) by lia. subst i. cbn [skipn app].
+  destruct u as [|x t]; [now apply fails_cat_chr_head|].
+  destruct (N.eqb_spec x 46) as [->|Hx].
+  - apply (fails_cat_single _ (fun y => N.eqb y 46)); [reflexivity|].
+    apply fails_rep_pos; [|discriminate]. apply (fails_head _ digt); [reflexivity|]. apply head_digt.
+    destruct t as [|d r]; [reflexivity|]. simpl in Hdot. simpl. now rewrite Hdot.
+  - apply fails_cat_chr_head. simpl. apply N.eqb_neq in Hx. now rewrite Hx.
+Qed.
+
+Lemma num_fails_x x t : nonum (x :: t) = true -> (sgnt x = true -> nonum t = true) ->
+  Fails (R:=nat) (m num_re) (x :: t).
+Proof.
+  intros H1 H2. destruct (nonum_fails _ H1) as [A1 B1]. unfold num_re, sign_re. apply fails_alt.
+  - apply (fails_opt1_cat _ sgnt); [reflexivity|exact A1|]. intros Hs. now destruct (nonum_fails _ (H2 Hs)).
+  - apply (fails_opt1_cat _ sgnt); [reflexivity|exact B1|]. intros Hs. now destruct (nonum_fails _ (H2 Hs)).
+Qed.
+
+Lemma nmstart_at_fails b t : nmstart_at t = false -> Fails (R:=nat) (m (Cat nmstart_re b)) t.
+Proof.
+  intros H. apply fails_cat_l. destruct t as [|c r]; [apply fails_nil; reflexivity|].
+  cbn [nmstart_at] in H. apply orb_false_iff in H as [Hp Hb]. unfold nmstart_plain in Hp.
+  apply orb_false_iff in Hp as [Hr H128]. unfold nmstart_re, nonascii_re.
+  apply fails_alt; [|apply fails_alt].
+  - apply (fails_single _ (fun x => xorb false (in_ranges x nmstart_rs))); [reflexivity|]. now rewrite Hr.
+  - apply (fails_single _ (fun x => xorb true (in_ranges x [(0,127)]%N))); [reflexivity|].
+    cbn [in_ranges]. apply N.leb_gt in H128. ranges.
+  - unfold escape_re. destruct (N.eqb_spec c 92) as [->|Hc].
+    + apply (fails_cat_single _ (fun x => N.eqb x 92)); [reflexivity|]. simpl in Hb.
+      destruct r as [|c2 r2]; [apply fails_nil; reflexivity|]. apply negb_false_iff in Hb.
+      unfold is_nlc in Hb. cbn [in_ranges] in Hb. unfold esc_tail, uni_tail. apply fails_alt.
+      * apply fails_cat_l. apply fails_rep_pos; [|discriminate].
+        apply (fails_single _ (fun x => xorb false (in_ranges x hex_rs))); [reflexivity|].
+        unfold hex_rs. cbn [in_ranges]. revert Hb. ranges.
+      * apply (fails_single _ (fun x => xorb true (in_ranges x lit_excl_rs))); [reflexivity|].
+        unfold lit_excl_rs. cbn [in_ranges]. revert Hb. ranges.
+    + apply fails_cat_l. apply (fails_single _ (fun x => N.eqb x 92)); [reflexivity|]. now apply N.eqb_neq.
+Qed.
+
+Lemma ident_at_fails b t : ident_at t = false -> Fails (R:=nat) (m (Cat dash_re (Cat nmstart_re b))) t.
+Proof.
+  intros H. unfold dash_re. destruct t as [|x r].
+  - apply fails_opt1_nil. now apply nmstart_at_fails.
+  - apply (fails_opt1_cat _ (fun y => N.eqb y 45)); [reflexivity| |].
+    + apply nmstart_at_fails. destruct (N.eqb_spec x 45) as [->|Hx]; [reflexivity|].
+      unfold ident_at in H. destruct x as [|q]; [exact H|].
+      do 6 (destruct q as [q|q|]; try exact H); congruence.
+    + intros Hx. apply N.eqb_eq in Hx. subst x. apply nmstart_at_fails. exact H.
+Qed.
+
+Lemma sel_ops2 :
+  sel (op_names OIncludes) = [(s "INCLUDES", re_INCLUDES); (s "CHAR", re_CHAR)] /\
+  sel (op_names ODash) = [(s "DASHMATCH", re_DASHMATCH); (s "CHAR", re_CHAR)] /\
+  sel (op_names OPrefix) = [(s "PREFIXMATCH", re_PREFIXMATCH); (s "CHAR", re_CHAR)] /\
+  sel (op_names OSuffix) = [(s "SUFFIXMATCH", re_SUFFIXMATCH); (s "CHAR", re_CHAR)] /\
+  sel (op_names OSubstr) = [(s "SUBSTRINGMATCH", re_SUBSTRINGMATCH); (s "CHAR", re_CHAR)] /\
+  sel (op_names OCdo) = [(s "CDO", re_CDO); (s "CHAR", re_CHAR)] /\
+  sel com_names = [(s "COMMENT", re_COMMENT); (s "CHAR", re_CHAR)] /\
+  sel sgn_names = numprods [(s "CHAR", re_CHAR)] /\
+  sel dash_names = (s "IDENT", re_IDENT) :: (s "FUNCTION", re_FUNCTION) :: numprods [(s "CDC", re_CDC); (s "CHAR", re_CHAR)].
+Proof. repeat split; vm_compute; reflexivity. Qed.
+
+Lemma lit2_fails a b rest : hd_not (is_c b) rest = true -> Fails (R:=nat) (m (Cat (Chr a) (Chr b))) (a :: rest).
+Proof.
+  intros H. apply (fails_cat_single _ (fun x => N.eqb x a)); [reflexivity|].
+  apply (fails_head _ (fun x => N.eqb x b)); [reflexivity|exact H].
+Qed.
+
+Lemma ctx_delim_lexeme c rest : ctx_delim_ok c rest = true -> wins (LDelim c) rest.
+Proof.
+  intros H dc prev. cbn [text cls app]. unfold ctx_delim_ok in H.
+  destruct range_ops as (R1 & R2 & R3 & R4 & R5 & R6).
+  destruct sel_ops2 as (S1 & S2 & S3 & S4 & S5 & S6 & S7 & S8 & S9).
+  destruct (mem c (s "~|^$*")) eqn:Eop.
+  { apply mem_In in Eop. simpl in Eop.
+    destruct Eop as [<-|[<-|[<-|[<-|[<-|[]]]]]].
+    - rewrite (dispatch_range _ _ _ R1) by reflexivity. rewrite S1, miss_fails by (now apply lit2_fails). now apply char_hit.
+    - rewrite (dispatch_range _ _ _ R2) by reflexivity. rewrite S2, miss_fails by (now apply lit2_fails). now apply char_hit.
+    - rewrite (dispatch_range _ _ _ R3) by reflexivity. rewrite S3, miss_fails by (now apply lit2_fails). now apply char_hit.
+    - rewrite (dispatch_range _ _ _ R4) by reflexivity. rewrite S4, miss_fails by (now apply lit2_fails). now apply char_hit.
+    - rewrite (dispatch_range _ _ _ R5) by reflexivity. rewrite S5, miss_fails by (now apply lit2_fails). now apply char_hit. }
+  destruct (N.eqb_spec c 47) as [->|_].
+  { rewrite (dispatch_range _ _ _ range_slash) by reflexivity. rewrite S7.
+    destruct shapes_ok as (_ & _ & _ & _ & _ & _ & _ & _ & -> & _).
+    rewrite miss_fails; [now apply char_hit|]. unfold comment_re.
+    apply (fails_cat_single _ (fun x => N.eqb x 47)); [reflexivity|]. now apply fails_cat_chr_head. }
+  destruct (N.eqb_spec c 46) as [->|_].
+  { rewrite (dispatch_range _ _ _ range_dot) by reflexivity. rewrite S8. unfold numprods.
+    destruct shapes_ok as (_ & _ & -> & -> & -> & _).
+    assert (F : Fails (R:=nat) (m num_re) (46%N :: rest)).
+    { apply num_fails_x; [|intros Hs; discriminate Hs]. unfold nonum. cbn [hd_not dot_digit].
+      destruct rest as [|d r]; [reflexivity|]. simpl in H. apply negb_true_iff in H. now rewrite H. }
+    rewrite miss_fails by (now apply fails_cat_l). rewrite miss_fails by (now apply fails_cat_l).
+    rewrite miss_fails by exact F. now apply char_hit. }
+  destruct (N.eqb_spec c 43) as [->|_].
+  { rewrite (dispatch_range _ _ _ range_plus) by reflexivity. rewrite S8. unfold numprods.
+    destruct shapes_ok as (_ & _ & -> & -> & -> & _).
+    assert (F : Fails (R:=nat) (m num_re) (43%N :: rest)).
+    { apply num_fails_x; [reflexivity|]. intros _. exact H. }
+    rewrite miss_fails by (now apply fails_cat_l). rewrite miss_fails by (now apply fails_cat_l).
+    rewrite miss_fails by exact F. now apply char_hit. }
+  destruct (N.eqb_spec c 60) as [->|_].
+  { rewrite (dispatch_range _ _ _ R6) by reflexivity. rewrite S6.
+    rewrite miss_fails; [now apply char_hit|]. unfold re_CDO.
+    apply (fails_cat_single _ (fun x => N.eqb x 60)); [reflexivity|]. apply negb_true_iff in H.
+    destruct rest as [|a r]; [now apply fails_cat_chr_head|].
+    destruct (N.eqb_spec a 33) as [->|Ha]; [|apply fails_cat_chr_head; simpl; apply N.eqb_neq in Ha; now rewrite Ha].
+    apply (fails_cat_single _ (fun x => N.eqb x 33)); [reflexivity|].
+    destruct r as [|b r]; [now apply fails_cat_chr_head|].
+    destruct (N.eqb_spec b 45) as [->|Hb]; [|apply fails_cat_chr_head; simpl; apply N.eqb_neq in Hb; now rewrite Hb].
+    apply (fails_cat_single _ (fun x => N.eqb x 45)); [reflexivity|].
+    apply (fails_head _ (fun x => N.eqb x 45)); [reflexivity|].
+    destruct r as [|d r]; [reflexivity|]. simpl in H. simpl.
+    destruct (N.eqb_spec d 45) as [->|]; [discriminate H|reflexivity]. }
+  destruct (N.eqb_spec c 64) as [->|_].
+  { rewrite (dispatch_range _ _ _ range_at) by reflexivity. rewrite sel_at.
+    destruct shapes_ok as (_ & _ & _ & _ & _ & _ & -> & _).
+    rewrite miss_fails; [now apply char_hit|].
+    apply (fails_cat_single _ (fun x => N.eqb x 64)); [reflexivity|]. unfold ident_re.
+    apply ident_at_fails. now apply negb_true_iff in H. }
+  destruct (N.eqb_spec c 35) as [->|_].
+  { rewrite (dispatch_range _ _ _ range_hash) by reflexivity. rewrite sel_hash.
+    destruct shapes_ok as (_ & _ & _ & _ & _ & -> & _).
+    rewrite miss_fails; [now apply char_hit|].
+    apply (fails_cat_single _ (fun x => N.eqb x 35)); [reflexivity|].
+    apply fails_rep_pos; [|discriminate]. now apply nmchar_stops. }
+  destruct (N.eqb_spec c 45) as [->|_]; [|discriminate H].
+  rewrite !andb_true_iff, !negb_true_iff in H. destruct H as [[[Hns Hd] Hdot] Hcdc].
+  rewrite (dispatch_range _ _ _ range_dash) by reflexivity. rewrite S9. unfold numprods.
+  destruct shapes_ok as (-> & -> & -> & -> & -> & _).
+  assert (Fid : forall b, Fails (R:=nat) (m (Cat dash_re (Cat nmstart_re b))) (45%N :: rest)).
+  { intros b. apply ident_at_fails. exact Hns. }
+  assert (F : Fails (R:=nat) (m num_re) (45%N :: rest)).
+  { apply num_fails_x; [reflexivity|]. intros _. unfold nonum. now rewrite Hd, Hdot. }
+  rewrite miss_fails by apply Fid. rewrite miss_fails by apply Fid.
+  rewrite miss_fails by (now apply fails_cat_l). rewrite miss_fails by (now apply fails_cat_l).
+  rewrite miss_fails by exact F. rewrite miss_fails; [now apply char_hit|].
+  unfold re_CDC. apply (fails_cat_single _ (fun x => N.eqb x 45)); [reflexivity|].
+  destruct rest as [|a r]; [now apply fails_cat_chr_head|].
+  destruct (N.eqb_spec a 45) as [->|Ha]; [|apply fails_cat_chr_head; simpl; apply N.eqb_neq in Ha; now rewrite Ha].
+  apply (fails_cat_single _ (fun x => N.eqb x 45)); [reflexivity|].
+  apply (fails_head _ (fun x => N.eqb x 62)); [reflexivity|].
+  destruct r as [|d r]; [reflexivity|]. simpl in Hcdc. simpl.
+  destruct (N.eqb_spec d 62) as [->|]; [discriminate Hcdc|reflexivity].
+Qed.
+
 (* ------------------------------------------------------------------ every lexeme wins *)
 Lemma fast_only_char : forallb only_char fastchars = true.
 Proof. vm_compute. reflexivity. Qed.
@@ -1262,6 +1623,7 @@ Theorem lexeme_wins : forall l rest, ok_follow l rest = true -> wins l rest.
 Proof.
   intros l rest H. destruct l.
   - now apply ident_lexeme.
+  - now apply function_lexeme.
   - now apply hash_lexeme.
   - now apply at_lexeme.
   - now apply number_lexeme.
@@ -1271,9 +1633,10 @@ Proof.
   - now apply comment_lexeme.
   - now apply ws_lexeme.
   - apply op_lexeme.
-  - cbn [ok_follow] in H. apply orb_true_iff in H as [H|H].
+  - cbn [ok_follow] in H. apply orb_true_iff in H as [H|H]; [apply orb_true_iff in H as [H|H]|].
     + intros dc prev. cbn [text cls app]. now apply fast_char_wins.
     + now apply pure_delim_lexeme.
+    + now apply ctx_delim_lexeme.
 Qed.
 
 (* ------------------------------------------------------------------ token value *)
@@ -1303,6 +1666,8 @@ Definition tv (t : tok) : str * str := (ty t, val t).
 Lemma text_nonempty l rest : ok_follow l rest = true -> exists ch f, text l = ch :: f.
 Proof.
   destruct l; cbn [ok_follow text]; intros H.
+  - unfold ident_text, render. destruct dash; cbn [dash_text app]; [eauto|].
+    cbn [map concat]. destruct e0; cbn [render_el app]; eauto.
   - unfold ident_text, render. destruct dash; cbn [dash_text app]; [eauto|].
     cbn [map concat]. destruct e0; cbn [render_el app]; eauto.
   - eauto.
